@@ -9,9 +9,17 @@ case = one run of update_file:
    "hash": "SHA1" | "SHA256" | "both", which hash family the Index publishes
    "order": 0..3, "extra": bool, "names": 0 | 1      Index layout: field order, ignorable fields + padded
                                                       columns, patch naming scheme
+   "ws": [flag, ...]                   Index layout, white space the deb822 format allows (WS_FLAGS): blank /
+                                       tab at the end of the History / Patches / Download entry lines, at the
+                                       end of a field's first line, tab as continuation indent, tabs between
+                                       the columns, an empty line closing the paragraph
    "verbose": bool, "via": 0 | 1 | 2                  how update_file is called (see below)
    "start": ["absent"] | ["v", i] | ["current"] | ["foreign"]        the local file before the call
-   "faults": [fault, ...]}                                            usually none or one
+   "faults": [fault, ...]                                             usually none or one
+   "debris": null | {"upto": m, "kill": ["write", k] | ["rename"] | ["fetch", k]}
+                                       an earlier update of the same local file was interrupted (below)
+   "prior": null | {"repo": "same" | "prefix" | "reversed", "upto": m, "start": "first" | "absent"}}
+                                       an earlier update in this process, from the same URL, completed (below)
 
   call form: "verbose" is update_file's documented third parameter (its only one besides remote and
   local).  via 0 = update_file(remote, local) / update_file(remote, local, verbose=True);
@@ -29,26 +37,56 @@ case = one run of update_file:
         | ["close"]               writes stay buffered and the flush at close fails (ENOSPC): the
                                   failure surfaces only when the written file is closed
 
+  debris: before the call under test, update_file(remote_m, local) - remote_m publishing v0..vm of the
+  same history in the same layout, without faults - runs in a forked child process that dies by
+  os._exit (no ``finally``, no handler runs: SIGKILL / power loss) in the middle of its k-th write to a
+  file in the local directory (half of the data flushed), at the rename onto the local file, or right
+  after its k-th download.  Whatever that process left in local/ and tmp/ is the debris the call under
+  test starts with (no file name is assumed: the debris is what this tree's code leaves); a kill point
+  that is never reached means the earlier run simply completed.  What the statement promises holds with
+  debris present exactly as without; "no temporary file remaining" is judged for every file the call
+  created, or touched and left (content, inode or mtime differ) - debris it never touched is not its
+  file.  The result of one interrupted run is kept (per process, 64 entries) and put back byte for byte
+  for the other plans that start from the same (history prefix, layout, local content, kill point).
+
+  prior: before the call under test and in the same process, update_file(remote, other) - the same
+  remote URL, another local file (in local-before/), no faults - runs to completion against what the
+  repository published then: the same history undamaged ("same": the case's faults then damage it in
+  place after that good run), v0..vm only ("prefix": the repository has moved on since), or vn..v0
+  ("reversed": other content has since been republished under the same patch and file names); that
+  earlier update started at the first version published then (patch route) or without a local file
+  (full download).  The repository directory is then rewritten in place as the one of the case, and the
+  call under test is judged exactly as without the earlier update: the library may keep nothing from an
+  earlier call that outlives a change of the repository, and "the chain of patches is applied" keeps
+  meaning that the chain's patches are fetched from the repository, in order.  The earlier update itself
+  is not judged here (the plans without it do that).
+
 The repository lives in a per-case tempfile.mkdtemp() directory (repo/, local/, tmp/) that is removed
 before check() returns; I/O faults are injected with unittest.mock for the duration of the one
 update_file call only (debian.debian_support.open, os.rename, os.replace; urllib.request.urlopen is
-wrapped to record which URLs were fetched).  The library has no hooks.
+wrapped to record which URLs were fetched, urllib.request.urlretrieve to place the "fetch" kill point).  The library has no hooks.
 
 Generation is *fault enumeration*: Hypothesis generates histories (+ Index layout); for every history
 ``plans()`` enumerates every start state x every fault plan, and each (history, start, faults) triple
 is one evaluation of check().  The fixed histories run the complete plan set with verbose False and
 with verbose True; a generated history runs the complete plan set at the verbose value drawn with it
-and, in addition, every start state without fault at the opposite value.
+and, in addition, every start state without fault at the opposite value.  The debris plans (see
+``plans()``) run at the history's own verbose value: 8 (n = 1: 7) per start for a fixed history, 2 per start
+for a generated one (every one of them forks a process); so do the plans with an earlier completed
+update from the same URL: 6 + n per start (4 + n for n = 1) for a fixed history, 2 for a generated one.
 """
 import builtins
 import contextlib
 import errno
+import gc
 import gzip
 import hashlib
 import io
+import json
 import locale
 import os
 import shutil
+import stat
 import sys
 import tempfile
 import urllib.request
@@ -69,7 +107,8 @@ RULE = ("Hypothesis generates histories v0..vn (n=1..4, 0..7 lines per version f
         "each version derived from the previous one by 1..2 hunks, sometimes (1 step in 8) reverting to an "
         "earlier one, sometimes (1 step in 8, any step incl. the first and the last, also several in a row) "
         "identical to the previous one = a no-change step whose patch is the empty script) x Index layout (SHA1 / SHA256 / both, 4 field orders, ignorable fields, 2 naming "
-        "schemes) x call form (verbose False / True; parameter by keyword, positional, or through the "
+        "schemes, 0..3 of 6 white-space variants the format allows: blank / tab ending the entry lines, blank+tab ending a field's first line, "
+        "tab indent, tab between columns, closing empty line) x call form (verbose False / True; parameter by keyword, positional, or through the "
         "deprecated alias updateFile); for every history the complete plan set is enumerated (fixed "
         "histories: at both verbose values; generated histories: at the drawn verbose value, plus every "
         "start without fault at the other value): start in {absent, each vi, "
@@ -77,10 +116,17 @@ RULE = ("Hypothesis generates histories v0..vn (n=1..4, 0..7 lines per version f
         "self-consistent but wrong, truncated, not gzip, missing; Index: missing, 4 unparseable forms, "
         "wrong Current hash, short History entry, patch not listed; k-th write failing for every k <= "
         "lines of vn; open failing; rename failing; flush at close failing; Index missing/unparseable "
-        "combined with a write / rename / close fault}.  Non-trivial = no fault and the local file at v1..vn-1 of a history with n>=2, "
+        "combined with a write / rename / close fault}; then start x debris of an earlier update that a forked child "
+        "really ran and that was killed (os._exit) {same repository: in the 1st write, at the rename, after the 1st download; "
+        "repository one publication earlier (n>=2): in the last write} without fault, and the debris of "
+        "the run killed at the rename x {1st write, open, rename, close failing} (fixed histories; a generated history: killed at the rename, "
+        "and one publication earlier in the last write - n=1: same repository, 1st write); then start x an earlier update of another local file, "
+        "completed in the same process from the same URL, after which the repository directory was rewritten in place: it had published vn..v0 under the same "
+        "names (earlier run by patches / by full download), v0..vn-1 (same two), the same history (no fault; then patch j replaced for each j, last patch "
+        "wrong) - generated histories: the reversed history by patches, and the same history with the last patch replaced afterwards.  Non-trivial = no fault and the local file at v1..vn-1 of a history with n>=2, "
         "or a fault that took effect (the damaged resource was fetched / the write, open, rename "
-        "or close was attempted); distinct = distinct canonical JSON of the (history incl. layout and call "
-        "form, start, faults) triple")
+        "or close was attempted); a debris plan: the earlier run left something and (no fault or the fault took effect); distinct = distinct canonical JSON of the (history incl. layout and call "
+        "form, start, faults, debris, prior) tuple")
 ASSUMPTIONS = [
     "expected content is vn itself; hashes in the Index come from hashlib, patches from the harness's LCS "
     "differ checked against its own ed model (model/c18_eddiff.py); for a no-change step that differ yields the "
@@ -89,6 +135,16 @@ ASSUMPTIONS = [
     "a write fault that never fires (the implementation wrote through another channel) expects convergence",
     "transport-level patch faults (truncated, not gzip, missing) and Index defects the statement does not "
     "name accept either outcome: converged, or raised with the local file intact",
+    "debris = whatever a child process (os.fork) running the tree's own update_file leaves when it dies by os._exit at "
+    "the kill point (half-way through a write, at the rename, after a download); fork() and /dev/shm (or TMPDIR) "
+    "semantics of the host; an interrupted run's result is reused byte for byte for plans with the same earlier run; "
+    "files of the debris that the call under test leaves untouched (same content, inode, mtime) are not counted "
+    "as its temporary files, everything else besides the local file is",
+    "the earlier completed update shares the process (module state of the tree under test) and the remote URL with the call "
+    "under test; the repository is rewritten in place between them with shutil.rmtree + the same builder; "
+    "'chain applied' is observed as: the chain's patch URLs, and not the full file, were fetched by the call",
+    "Index white-space variants: what deb822 / APT's tag-file reader accept (trailing blanks are not part of a value, "
+    "continuation lines start with blank or tab, columns are separated by any run of blanks and tabs)",
     "the call's output is captured with contextlib.redirect_stdout into a StringIO (so printing cannot fail "
     "on the stream's encoding) and is not judged; verbose is the only parameter of update_file besides "
     "remote and local; the knobs of its helpers (replace_file encoding=, patches_from_ed_script re_cmd=) "
@@ -98,9 +154,9 @@ ASSUMPTIONS = [
 ]
 EXHAUSTIVE = {
     "quick": "for each of the 12 fixed histories (5 of them with no-change steps: first, last, interior, two in a row, only step) x 3 hash configurations x verbose False/True and for every "
-             "generated history (at its drawn call form): every start state x every fault plan of plans()",
+             "generated history (at its drawn call form): every start state x every fault plan, every debris plan and every earlier-update plan of plans()",
     "thorough": "for each of the 12 fixed histories (5 of them with no-change steps: first, last, interior, two in a row, only step) x 3 hash configurations x verbose False/True and for every "
-                "generated history (at its drawn call form): every start state x every fault plan of plans()",
+                "generated history (at its drawn call form): every start state x every fault plan, every debris plan and every earlier-update plan of plans()",
 }
 BUDGET = {"quick": 180, "thorough": 1800}
 
@@ -108,6 +164,16 @@ PATCH_FAULTS = ("replaced", "equivalent", "wrong", "truncated", "notgzip", "miss
 INDEX_FAULTS = ("missing", "broken", "wrong-current", "columns", "unlisted")
 N_BROKEN = 6
 VIA = ("keyword", "positional", "alias")
+# Index layouts the deb822 format allows (APT reads them all alike): blanks / tabs at the end of the
+# History / Patches / Download entry lines, at the end of the field's first line, a tab as the
+# continuation indent, tabs between the columns, an empty line closing the paragraph
+WS_FLAGS = ("entry-trail-space", "entry-trail-tab", "head-trail", "tab-indent", "tab-columns",
+            "final-blank-line")
+WS_FIXED = ([], ["entry-trail-space"], ["tab-indent", "head-trail"], ["entry-trail-tab"],
+            ["tab-columns", "final-blank-line"], ["entry-trail-space", "entry-trail-tab", "tab-indent"],
+            ["head-trail", "tab-columns"])
+PRIOR_REPOS = ("same", "prefix", "reversed")
+KILLED, COMPLETED, RAISED = 17, 0, 3        # exit codes of the interrupted earlier run (a child process)
 POOL = ["a\n", "b\n", "c\n", "..\n", " .\n", ". \n", "1a\n", "2,3d\n", "\n", "é\n", ".x\n",
         # characters str.splitlines() treats as line boundaries but file iteration does not: one line each
         "x\x0cy\n", "p\u2028q\n", "v\x85w\n", "k\x1dl\x0bm\n"]
@@ -129,7 +195,7 @@ def _scratch_parent():
 
 
 SCRATCH = _scratch_parent()
-_REAL = dict(urlopen=urllib.request.urlopen, rename=os.rename, replace=os.replace, open=builtins.open)
+_REAL = dict(urlopen=urllib.request.urlopen, urlretrieve=urllib.request.urlretrieve, rename=os.rename, replace=os.replace, open=builtins.open)
 
 
 # ------------------------------------------------------------------------------------------
@@ -153,7 +219,25 @@ def normalise(case):
     cfg = dict(hash=case.get("hash") if case.get("hash") in ("SHA1", "SHA256", "both") else "SHA1",
                order=int(case.get("order") or 0) % 4, extra=bool(case.get("extra")),
                names=int(case.get("names") or 0) % 2,
-               verbose=bool(case.get("verbose")), via=int(case.get("via") or 0) % len(VIA))
+               verbose=bool(case.get("verbose")), via=int(case.get("via") or 0) % len(VIA),
+               ws=[w for w in WS_FLAGS if w in (case.get("ws") or [])])
+    deb = case.get("debris")
+    if deb:
+        kill = deb.get("kill") if isinstance(deb, dict) else None
+        if not kill or kill[0] not in ("write", "rename", "fetch"):
+            return None
+        kill = [kill[0]] if kill[0] == "rename" else [kill[0], max(int(kill[1]) if len(kill) > 1 else 1, 1)]
+        cfg["debris"] = dict(kill=kill, upto=1 + (int(deb.get("upto") or n) - 1) % n)
+    else:
+        cfg["debris"] = None
+    pri = case.get("prior")
+    if pri:
+        if not isinstance(pri, dict) or pri.get("repo") not in PRIOR_REPOS:
+            return None
+        cfg["prior"] = dict(repo=pri["repo"], start="absent" if pri.get("start") == "absent" else "first",
+                            upto=1 + (int(pri.get("upto") or n) - 1) % n)
+    else:
+        cfg["prior"] = None
     start = case.get("start") or ["absent"]
     if start[0] == "v":
         start = ["v", int(start[1]) % n]
@@ -180,9 +264,12 @@ def foreign_content(vs):
 
 
 def plans(hist, both=False):
-    """Every (start, faults, verbose) plan for a history -- the enumerated fault space: every start x
-    every fault plan at the history's own verbose value; at the opposite value every start x every
-    fault plan too if ``both``, else every start without fault."""
+    """Every (start, faults, verbose, debris) plan for a history -- the enumerated fault space: every
+    start x every fault plan at the history's own verbose value; at the opposite value every start x
+    every fault plan too if ``both``, else every start without fault; then, at the history's own
+    verbose value, every start x every debris plan (an earlier update, killed, precedes the call;
+    8 plans (n = 1: 7) if ``both``, else 2) and every start x every plan with an earlier completed update from the
+    same URL (6 + n plans if ``both``, else 2)."""
     vs = hist["versions"]
     n = len(vs) - 1
     starts = [["absent"]] + [["v", i] for i in range(n)] + [["current"], ["foreign"]]
@@ -203,13 +290,43 @@ def plans(hist, both=False):
            [["index", "missing", 0], ["write", 1]], [["index", "missing", 0], ["rename"]],
            [["index", "broken", 0], ["write", max(len(vs[-1]), 1)]], [["index", "broken", 1], ["rename"]]]
     verbose = bool(hist.get("verbose"))
-    return ([(s, f, verbose) for f in fl for s in starts] +
-            [(s, f, not verbose) for f in (fl if both else [[]]) for s in starts])
+    # debris of an interrupted earlier run: the earlier update ran against the same repository and was
+    # killed at its first write, at the rename, or after its first download; or it ran when only
+    # v0..vn-1 were published (the debris then holds other, possibly longer content) and was killed at
+    # its last write.  With the debris of the run killed at the rename in place, the call under test
+    # also meets every kind of I/O fault.  That is the set for ``both`` (the fixed histories); a generated
+    # history runs two debris plans per start (each costs a fork): same repository killed at the rename,
+    # and the earlier repository killed in the last write (n = 1: same repository, first write)
+    last = dict(upto=n - 1, kill=["write", max(len(vs[n - 1]), 1)]) if n >= 2 else dict(upto=n, kill=["write", 1])
+    if both:
+        dl = [([], dict(upto=n, kill=k)) for k in (["write", 1], ["rename"], ["fetch", 1])]
+        dl += [(f, dict(upto=n, kill=["rename"])) for f in ([["write", 1]], [["open"]], [["rename"]], [["close"]])]
+        if n >= 2:
+            dl.append(([], last))
+    else:
+        dl = [([], dict(upto=n, kill=["rename"])), ([], last)]
+    # a completed earlier update in the same process against the same remote URL (another local file),
+    # after which the repository was rewritten in place: it had published the same history and a patch
+    # is damaged afterwards; it had published v0..vn-1 and moved on; it had published other content
+    # under the same names (the reversed history).  The earlier run took the patch route from the first
+    # version, or downloaded the full file
+    pl = [([], dict(repo="reversed", start="first", upto=n)),
+          ([["patch", "replaced", n - 1]], dict(repo="same", start="first", upto=n))]
+    if both:
+        pl += [([], dict(repo="reversed", start="absent", upto=n)), ([], dict(repo="same", start="first", upto=n)),
+               ([["patch", "wrong", n - 1]], dict(repo="same", start="first", upto=n))]
+        pl += [([["patch", "replaced", j]], dict(repo="same", start="first", upto=n)) for j in range(n - 1)]
+        if n >= 2:
+            pl += [([], dict(repo="prefix", start=st0, upto=n - 1)) for st0 in ("first", "absent")]
+    return ([(s, f, verbose, None, None) for f in fl for s in starts] +
+            [(s, f, not verbose, None, None) for f in (fl if both else [[]]) for s in starts] +
+            [(s, f, verbose, d, None) for f, d in dl for s in starts] +
+            [(s, f, verbose, None, q) for f, q in pl for s in starts])
 
 
-def plan_class(start, faults, verbose):
+def plan_class(start, faults, verbose, debris=None, prior=None):
     return (start[0], tuple(tuple(f[:2]) if f[0] in ("patch", "index") else (f[0],) for f in faults),
-            verbose)
+            verbose, debris["kill"][0] if debris else None, (prior["repo"], prior["start"]) if prior else None)
 
 
 # ------------------------------------------------------------------------------------------
@@ -228,10 +345,10 @@ def patch_name(cfg, j):
     return "%s.%d" % (NAME, j + 1) if cfg["names"] == 0 else "2024-01-%02d-0000.00" % (j + 1)
 
 
-def build_repository(root, vs, cfg, faults):
+def build_repository(root, vs, cfg, faults, sub="repo"):
     """Write repo/ under root; -> dict(remote=url prefix, urls of every resource)."""
     n = len(vs) - 1
-    repo = os.path.join(root, "repo")
+    repo = os.path.join(root, sub)
     pdir = os.path.join(repo, NAME + ".diff")
     os.makedirs(pdir)
     pf = {f[2]: f[1] for f in faults if f[0] == "patch"}
@@ -266,30 +383,38 @@ def build_repository(root, vs, cfg, faults):
     if cfg["order"] & 1:
         families.reverse()
     pad = "%9d" if cfg["extra"] else "%d"
+    ws = set(cfg.get("ws") or ())
+    indent = "\t" if "tab-indent" in ws else " "
+    sep = "\t" if "tab-columns" in ws else " "
+    trail = (" " if "entry-trail-space" in ws else "") + ("\t" if "entry-trail-tab" in ws else "")
+    htrail = " \t" if "head-trail" in ws else ""
+    entry = lambda *cols: indent + sep.join(cols) + trail + "\n"
     out = []
     for fam in families:
         cur = enc(vs[-1] + [WRONG_LINE]) if "wrong-current" in xf else enc(vs[-1])
-        current = "%s-Current: %s %s\n" % (fam, _hexdigest(fam, cur), pad % len(enc(vs[-1])))
-        hist = "%s-History:\n" % fam
+        current = "%s-Current: %s%s%s%s\n" % (fam, _hexdigest(fam, cur), sep, pad % len(enc(vs[-1])), htrail)
+        hist = "%s-History:%s\n" % (fam, htrail)
         for j in range(n):
             if xf.get("columns") == j:
-                hist += " %s %s\n" % (_hexdigest(fam, enc(vs[j])), patch_name(cfg, j))
+                hist += entry(_hexdigest(fam, enc(vs[j])), patch_name(cfg, j))
             else:
-                hist += " %s %s %s\n" % (_hexdigest(fam, enc(vs[j])), pad % len(enc(vs[j])), patch_name(cfg, j))
-        pats = "%s-Patches:\n" % fam
+                hist += entry(_hexdigest(fam, enc(vs[j])), pad % len(enc(vs[j])), patch_name(cfg, j))
+        pats = "%s-Patches:%s\n" % (fam, htrail)
         for j in range(n):
             if xf.get("unlisted") != j:
-                pats += " %s %s %s\n" % (_hexdigest(fam, listed[j]), pad % len(listed[j]), patch_name(cfg, j))
+                pats += entry(_hexdigest(fam, listed[j]), pad % len(listed[j]), patch_name(cfg, j))
         if cfg["extra"]:
-            pats += "%s-Download:\n" % fam
+            pats += "%s-Download:%s\n" % (fam, htrail)
             for j in range(n):
-                pats += " %s %s %s.gz\n" % (_hexdigest(fam, _gz(listed[j])), pad % len(_gz(listed[j])),
-                                            patch_name(cfg, j))
+                pats += entry(_hexdigest(fam, _gz(listed[j])), pad % len(_gz(listed[j])),
+                              patch_name(cfg, j) + ".gz")
         out += [[current, hist, pats], [pats, hist, current], [hist, current, pats],
                 [current, pats, hist]][cfg["order"]]
     if cfg["extra"]:
         out.insert(1, "X-Patch-Precedence: merged\n")
         out.append("X-Unused-Comment: nothing to see,\n here\n")
+    if "final-blank-line" in ws:
+        out.append("\n")
     text = "".join(out)
     if "broken" in xf:
         text = ["this line is not a field\n" + text,
@@ -324,6 +449,10 @@ class FailingWriter(object):
             self._pending = getattr(self, "_pending", type(data)()) + data
             return len(data)
         st_["writes"] += 1
+        if st_["writes"] == st_.get("kill_write"):
+            self._f.write(data[:len(data) // 2])
+            self._f.flush()
+            _die(st_)
         if st_["writes"] == st_["fail_write"]:
             st_["fired"].add("write")
             self._f.write(data[:len(data) // 2])
@@ -377,6 +506,14 @@ def _in_dir(name, directory):
     return os.path.dirname(os.path.abspath(p)) == directory
 
 
+def _die(st_):
+    """The process running the earlier update is killed here (SIGKILL, power loss): no handler, no
+    ``finally`` runs.  Only ever reached in the child forked by interrupted_update()."""
+    if os.getpid() != st_.get("child"):
+        raise RuntimeError("C19 harness: kill point reached outside the child process")
+    os._exit(KILLED)
+
+
 def call_update(remote, local, verbose, via):
     """The one call under test, in the call form of the case."""
     alias = getattr(ds, "updateFile", None)
@@ -389,12 +526,15 @@ def call_update(remote, local, verbose, via):
     return ds.update_file(remote, local, verbose=True) if verbose else ds.update_file(remote, local)
 
 
-def run_update(remote, local, faults, st_, verbose=False, via=0):
+def run_update(remote, local, faults, st_, verbose=False, via=0, kill=None):
     """update_file(remote, local[, verbose]) with the I/O faults of the plan; every mock ends with the
-    call, and so does the capture of what it prints (st_["printed"])."""
+    call, and so does the capture of what it prints (st_["printed"]).  ``kill`` (child process only):
+    the point at which the process dies."""
     localdir = os.path.dirname(local)
     st_.update(writes=0, fired=set(), urls=[], fail_write=None, fail_open=False, fail_rename=False,
-               fail_close=False, printed="")
+               fail_close=False, printed="", kill_write=None, kill_rename=False, kill_fetch=None, fetches=0)
+    if kill:
+        st_["kill_" + kill[0]] = True if kill[0] == "rename" else kill[1]
     for f in faults:
         if f[0] == "close":
             st_["fail_close"] = True
@@ -418,8 +558,17 @@ def run_update(remote, local, faults, st_, verbose=False, via=0):
             return FailingWriter(_REAL["open"](name, mode, *a, **kw), st_)
         return _REAL["open"](name, mode, *a, **kw)
 
+    def urlretrieve(url, *a, **kw):
+        r = _REAL["urlretrieve"](url, *a, **kw)
+        st_["fetches"] += 1
+        if st_["fetches"] == st_["kill_fetch"]:
+            _die(st_)        # the download is on disk, nothing has been done with it yet
+        return r
+
     def mover(real):
         def move(src, dst, *a, **kw):
+            if st_["kill_rename"] and os.path.abspath(os.fspath(dst)) == local:
+                _die(st_)
             if st_["fail_rename"] and _in_dir(dst, localdir) and os.path.abspath(os.fspath(dst)) == local:
                 st_["fired"].add("rename")
                 raise OSError(errno.EXDEV, "Invalid cross-device link (injected)")
@@ -431,6 +580,7 @@ def run_update(remote, local, faults, st_, verbose=False, via=0):
     old_stdout, sink = sys.stdout, io.StringIO()
     try:
         with mock.patch.object(urllib.request, "urlopen", urlopen), \
+                mock.patch.object(urllib.request, "urlretrieve", urlretrieve), \
                 mock.patch.object(ds, "open", fake_open, create=True), \
                 mock.patch.object(os, "rename", mover(_REAL["rename"])), \
                 mock.patch.object(os, "replace", mover(_REAL["replace"])), \
@@ -443,9 +593,53 @@ def run_update(remote, local, faults, st_, verbose=False, via=0):
             sys.stdout = old_stdout
             raise RuntimeError("C19 harness: sys.stdout was not restored after the case")
         if ("open" in vars(ds) or urllib.request.urlopen is not _REAL["urlopen"]
+                or urllib.request.urlretrieve is not _REAL["urlretrieve"]
                 or os.rename is not _REAL["rename"] or os.replace is not _REAL["replace"]
                 or builtins.open is not _REAL["open"]):
             raise RuntimeError("C19 harness: a mock outlived its case")
+
+
+_EARLIER = {}       # (history prefix, layout, local content, kill point) -> what the killed run left
+
+
+def interrupted_update(remote, local, kill):
+    """An earlier update_file(remote, local) in a forked child that dies (os._exit, so that no
+    ``finally`` and no handler runs) at the kill point -> KILLED | COMPLETED (the kill point was never
+    reached: the earlier run simply finished) | RAISED.  Whatever it leaves on disk is the debris."""
+    sys.stdout.flush()
+    sys.stderr.flush()
+    pid = os.fork()
+    if pid == 0:
+        code = RAISED
+        try:
+            gc.disable()        # a collection in the short-lived child would only copy pages
+            run_update(remote, local, [], {"child": os.getpid()}, kill=kill)
+            code = COMPLETED
+        except BaseException:
+            pass
+        finally:
+            os._exit(code)
+    status = os.waitstatus_to_exitcode(os.waitpid(pid, 0)[1])
+    if status not in (KILLED, COMPLETED, RAISED):
+        raise RuntimeError("C19 harness: the interrupted earlier run ended with status %r" % status)
+    return status
+
+
+def snapshot(dirs, local):
+    """{path: (content, inode, mtime)} of everything in dirs except the local file."""
+    snap = {}
+    for d in dirs:
+        for nm in sorted(os.listdir(d)):
+            p = os.path.join(d, nm)
+            if p == local:
+                continue
+            s = os.lstat(p)
+            data = None
+            if stat.S_ISREG(s.st_mode):
+                with open(p, "rb") as f:
+                    data = f.read()
+            snap[p] = (data, s.st_ino, s.st_mtime_ns)
+    return snap
 
 
 # ------------------------------------------------------------------------------------------
@@ -465,28 +659,87 @@ def check(case):
         return (False, ("skipped-non-utf8-locale",))
     n = len(vs) - 1
     target = vs[-1]
+    enc = lambda lines: "".join(lines).encode("utf-8")
     content = {"absent": None, "current": target, "foreign": foreign_content(vs)}.get(start[0])
     if start[0] == "v":
         content = vs[start[1]]
-    in_hist = [j for j in range(n) if vs[j] == content]
-    is_cur = content == target
+    deb, prior = cfg["debris"], cfg["prior"]
+    vs0 = {"same": vs, "prefix": vs[:prior["upto"] + 1], "reversed": vs[::-1]}[prior["repo"]] if prior else []
     # the harness's own patches must be right (ModelError -> exit 2, never a violation)
-    for j in range(n):
-        if ed.apply_script(vs[j], ed.make_script(vs[j], vs[j + 1], "lcs", 0)) != vs[j + 1]:
-            raise ed.ModelError("patch %d of the history is wrong" % j)
+    for hist in (vs, vs0):
+        for j in range(len(hist) - 1):
+            if ed.apply_script(hist[j], ed.make_script(hist[j], hist[j + 1], "lcs", 0)) != hist[j + 1]:
+                raise ed.ModelError("patch %d of the history is wrong" % j)
 
     root = tempfile.mkdtemp(prefix="vcheck-c19-", dir=SCRATCH)
     try:
-        res = build_repository(root, vs, cfg, faults)
         localdir = os.path.join(root, "local")
+        tmpdir = os.path.join(root, "tmp")
         os.makedirs(localdir)
-        os.makedirs(os.path.join(root, "tmp"))
+        os.makedirs(tmpdir)
+        prior_outcome, prior_urls = None, []
+        if prior:
+            # a completed update of another local file, in this process, from the same remote URL; then
+            # the repository is rewritten in place (below) as the one the call under test meets
+            res0 = build_repository(root, vs0, cfg, [])
+            os.makedirs(os.path.join(root, "local-before"))
+            local0 = os.path.join(root, "local-before", NAME)
+            if prior["start"] == "first":
+                with open(local0, "wb") as f:
+                    f.write(enc(vs0[0]))
+            st0 = {}
+            try:
+                run_update(res0["remote"], local0, [], st0)
+                prior_outcome = "completed"
+            except RuntimeError as e:
+                if "harness" in str(e):
+                    raise
+                prior_outcome = "raised"
+            except Exception:       # not the call under test: judged by the plans without an earlier update
+                prior_outcome = "raised"
+            prior_urls = [u for u in st0["urls"] if u in res0["patches"] or u == res0["full"]]
+            shutil.rmtree(os.path.join(root, "repo"))
+        res = build_repository(root, vs, cfg, faults)
         local = os.path.join(localdir, NAME)
-        pre = None
         if content is not None:
-            pre = "".join(content).encode("utf-8")
             with open(local, "wb") as f:
-                f.write(pre)
+                f.write(enc(content))
+        debris, earlier = {}, None
+        if deb:
+            # an earlier update of the same local file, against the repository as it was when
+            # v0..v<upto> were published (without faults), killed at the kill point
+            key = json.dumps([vs[:deb["upto"] + 1], cfg["hash"], cfg["order"], cfg["extra"], cfg["names"],
+                              cfg["ws"], content, deb["kill"]])
+            if key in _EARLIER:
+                # the same earlier run was interrupted for another plan already: put back what it left
+                earlier, local_then, files = _EARLIER[key]
+                for rel, data in [(os.path.relpath(local, root), local_then)] + sorted(files.items()):
+                    if data is None:
+                        if os.path.exists(os.path.join(root, rel)):
+                            os.unlink(os.path.join(root, rel))
+                    else:
+                        with open(os.path.join(root, rel), "wb") as f:
+                            f.write(data)
+            else:
+                then = res if deb["upto"] == n and not faults else build_repository(
+                    root, vs[:deb["upto"] + 1], cfg, [], sub="repo-then")
+                earlier = interrupted_update(then["remote"], local, deb["kill"])
+                found = snapshot((localdir, tmpdir), local)
+                if all(v[0] is not None for v in found.values()):
+                    local_then = None
+                    if os.path.exists(local):
+                        with open(local, "rb") as f:
+                            local_then = f.read()
+                    if len(_EARLIER) >= 64:
+                        _EARLIER.clear()
+                    _EARLIER[key] = (earlier, local_then,
+                                     {os.path.relpath(p, root): v[0] for p, v in found.items()})
+        if deb or prior:
+            debris = snapshot((localdir, tmpdir), local)
+        pre = None      # the local file as the call under test finds it
+        if os.path.exists(local):
+            with open(local, "rb") as f:
+                pre = f.read()
         st_ = {}
         exc = ret = None
         try:
@@ -502,14 +755,20 @@ def check(case):
         if os.path.exists(local):
             with open(local, "rb") as f:
                 after = f.read()
-        new_left = os.path.lexists(local + ".new")
-        strays = sorted(set(os.listdir(localdir)) - {NAME, NAME + ".new"})
-        tmp_left = sorted(os.listdir(os.path.join(root, "tmp")))
+        # everything besides the local file that the call created, or touched and left behind;
+        # debris the call did not touch is not its temporary file
+        left = sorted(p for p, v in snapshot((localdir, tmpdir), local).items() if debris.get(p) != v)
+        new_left = local + ".new" in left
+        strays = [os.path.relpath(p, root) for p in left if p != local + ".new"]
+        debris_names = sorted(os.path.relpath(p, root) for p in debris)
+        debris_gone = [os.path.relpath(p, root) for p in sorted(debris) if not os.path.lexists(p)]
     finally:
         shutil.rmtree(root, ignore_errors=True)
         if os.path.exists(root):
             raise RuntimeError("C19 harness: could not remove %s" % root)
 
+    in_hist = [j for j in range(n) if enc(vs[j]) == pre]
+    is_cur = enc(target) == pre
     urls, fired = st_["urls"], set(st_["fired"])
     for f in faults:
         if f[0] == "patch" and res["patches"][f[2]] in urls:
@@ -530,16 +789,26 @@ def check(case):
                 (must_raise if in_hist and not is_cur else either).append(nm)
             elif f[1] in ("columns", "unlisted"):
                 either.append(nm)
-    what = "start=%s faults=%s hash=%s n=%d%s" % (
+    what = "start=%s faults=%s hash=%s n=%d%s%s%s" % (
         start, faults, cfg["hash"], n,
-        " verbose=%s via=%s" % (cfg["verbose"], VIA[cfg["via"]]) if cfg["verbose"] or cfg["via"] else "")
+        " verbose=%s via=%s" % (cfg["verbose"], VIA[cfg["via"]]) if cfg["verbose"] or cfg["via"] else "",
+        " index-layout=%s" % "+".join(cfg["ws"]) if cfg["ws"] else "",
+        " after an earlier update (v0..v%d published) %s, leaving %s" % (
+            deb["upto"], {KILLED: "killed at %s" % deb["kill"], COMPLETED: "that completed",
+                          RAISED: "that raised"}[earlier], debris_names or "nothing") if deb else "") + (
+        " after an update of another local file (%s) in this process from the same URL, which then published %s "
+        "(that update %s and fetched %s)" % (
+            "at the first version" if prior["start"] == "first" else "absent",
+            {"same": "this history, undamaged", "prefix": "v0..v%d only" % prior["upto"],
+             "reversed": "vn..v0 under the same patch names"}[prior["repo"]],
+            prior_outcome, [u.rsplit("/", 1)[-1] for u in prior_urls]) if prior else "")
 
     # 1. whatever happened: no temporary file may remain
     if new_left:
         raise Violation("new-file-left", "%s: %s.new exists after %s" % (
             what, NAME, "the error %r" % exc if exc else "a successful return"))
-    if tmp_left or strays:
-        raise Violation("tempfile-left", "%s: left behind %s" % (what, tmp_left + strays))
+    if strays:
+        raise Violation("tempfile-left", "%s: left behind %s" % (what, strays))
 
     if exc is not None:
         # 2. an error never corrupts the local file
@@ -589,6 +858,19 @@ def check(case):
         labels.append("two-faults")
     if cfg["extra"]:
         labels.append("index-with-ignorable-fields")
+    labels += ["index-layout:" + w for w in cfg["ws"]] or ["index-layout:plain"]
+    if deb:
+        labels.append("earlier-run:" + {KILLED: "killed-at-" + deb["kill"][0], COMPLETED: "completed",
+                                        RAISED: "raised"}[earlier])
+        labels.append("earlier-run-repository:" + ("same" if deb["upto"] == n else "one-publication-before"))
+        if not debris:
+            labels.append("debris:none")
+        for d in debris_names:
+            labels.append("debris:" + ("local-dir" if d.startswith("local") else "tmp-dir"))
+        if debris_gone:
+            labels.append("debris-gone-after-the-call")
+        elif debris:
+            labels.append("debris-left-untouched")
     if len(in_hist) > 1 or (in_hist and is_cur):
         labels.append("local-content-twice-in-history")
     same = [j for j in range(n) if vs[j] == vs[j + 1]]
@@ -602,7 +884,7 @@ def check(case):
             labels.append("empty-patch-applied")
     if not target:
         labels.append("published-file-empty")
-    if content == []:
+    if pre == b"":
         labels.append("local-file-empty")
     if any(ord(ch) > 127 for v in vs for l in v for ch in l):
         labels.append("non-ascii-line")
@@ -610,6 +892,16 @@ def check(case):
         labels.append("chain>=2")
     effective = any(fault_name(f) in fired or f[0] in fired for f in faults)
     nontrivial = effective or (not faults and n >= 2 and start[0] == "v" and start[1] >= 1)
+    if deb:
+        nontrivial = bool(debris) and (effective or not faults)
+    if prior:
+        labels = sorted(set(labels) | {"earlier-update-same-url:" + prior["repo"],
+                                       "earlier-update-same-url:local-" + prior["start"],
+                                       "earlier-update-same-url:" + prior_outcome} |
+                        ({"earlier-update-same-url:took-the-patch-route"}
+                         if any(u in res0["patches"] for u in prior_urls) else set()))
+        nontrivial = prior_outcome == "completed" and bool(prior_urls) and (effective or not faults)
+        return (nontrivial, labels)
     return (nontrivial, sorted(set(labels)))
 
 
@@ -649,7 +941,8 @@ def gen_history(draw):
         vs.append(new)
     return {"versions": vs, "hash": draw(st.sampled_from(["SHA1", "SHA256", "SHA1", "SHA256", "both"])),
             "order": draw(st.integers(0, 3)), "extra": draw(st.booleans()), "names": draw(st.integers(0, 1)),
-            "verbose": draw(st.booleans()), "via": draw(st.sampled_from([0, 0, 1, 2]))}
+            "verbose": draw(st.booleans()), "via": draw(st.sampled_from([0, 0, 1, 2])),
+            "ws": draw(st.lists(st.sampled_from(WS_FLAGS), unique=True, max_size=3))}
 
 
 FIXED = [
@@ -678,9 +971,9 @@ def enum_fixed():
         for h in ("SHA1", "SHA256", "both"):
             k += 1
             hist = {"versions": vs, "hash": h, "order": k % 4, "extra": bool(k & 1), "names": (k >> 1) & 1,
-                    "verbose": False, "via": (k // 2) % len(VIA)}
-            for start, faults, verbose in plans(hist, both=True):
-                yield dict(hist, start=start, faults=faults, verbose=verbose)
+                    "verbose": False, "via": (k // 2) % len(VIA), "ws": list(WS_FIXED[k % len(WS_FIXED)])}
+            for start, faults, verbose, debris, prior in plans(hist, both=True):
+                yield dict(hist, start=start, faults=faults, verbose=verbose, debris=debris, prior=prior)
 
 
 def histories_phase(n_histories):
@@ -703,8 +996,8 @@ def histories_phase(n_histories):
                 todo = [p for p in todo if plan_class(*p) == state["cls"]]
             else:
                 rec.note("histories-enumerated")
-            for start, faults, verbose in todo:
-                case = dict(hist, start=start, faults=faults, verbose=verbose)
+            for start, faults, verbose, debris, prior in todo:
+                case = dict(hist, start=start, faults=faults, verbose=verbose, debris=debris, prior=prior)
                 try:
                     res = engine.run_oracle(mod, case)
                 except Violation as v:
@@ -713,7 +1006,7 @@ def histories_phase(n_histories):
                         continue
                     if state.get("sig") not in (None, v.sig):
                         continue
-                    state.update(sig=v.sig, cls=plan_class(start, faults, verbose), v=v, case=case)
+                    state.update(sig=v.sig, cls=plan_class(start, faults, verbose, debris, prior), v=v, case=case)
                     raise
                 rec.ok(case, res)
 
